@@ -158,3 +158,11 @@ impl core::ops::Deref for PathBuf {
 }
 /// no component of the path is ".."
 pub uninterp spec fn no_dotdot_component(p: Seq<u8>) -> bool;
+impl vstd::std_specs::convert::FromSpecImpl<&OsStr> for PathBuf {
+    open spec fn obeys_from_spec() -> bool { false }
+    uninterp spec fn from_spec(s: &OsStr) -> PathBuf;
+}
+impl From<&OsStr> for PathBuf {
+    #[verifier::external_body]
+    fn from(s: &OsStr) -> (r: PathBuf) ensures r@ == s@ { unimplemented!() }
+}
